@@ -258,6 +258,17 @@ func (e *vfEnv) Mount(t testing.TB, c vfCred) uint64 {
 	return binary.BigEndian.Uint64(r.Body[8:16])
 }
 
+// MountPath sends MNT for dirpath; ok is false when the server refused it.
+func (e *vfEnv) MountPath(dirpath string, c vfCred) (uint64, bool) {
+	var a bytes.Buffer
+	xdrEncodeString(&a, dirpath)
+	r := e.Call(MOUNT_PROGRAM, MOUNT_V3, 1, a.Bytes(), c)
+	if r.Err != nil || r.Denied || len(r.Body) < 16 || binary.BigEndian.Uint32(r.Body[0:4]) != 0 {
+		return 0, false
+	}
+	return binary.BigEndian.Uint64(r.Body[8:16]), true
+}
+
 // ---------------------------------------------------------------- argument builders
 
 type vfSattr struct {
